@@ -359,9 +359,12 @@ def big_rows(ctx: Ctx):
         s = sqrt(g2, d)
         return 0, (s if s is not None else ((0,) * d))
 
-    def rand_point(d):
+    def rand_point(d, band=None):
         while True:
-            x = (rng.randrange(p),) if d == 1 else (rng.randrange(p), rng.randrange(p))
+            x = [rng.randrange(p) for _ in range(d)]
+            if band:
+                x[band[0]] = rng.randrange(band[1], band[2])
+            x = tuple(x)
             y = sqrt(rhs(x, d), d)
             if y is not None:
                 F = ob.FQ if d == 1 else ob.FQ2
@@ -408,17 +411,22 @@ def big_rows(ctx: Ctx):
         pts = [G, ob.multiply(G, 2), ob.multiply(G, r - 1), ob.multiply(G, rng.randrange(1, r)), Z,
                tuple(c * (F(7) if d == 1 else F([3, 5])) for c in ob.multiply(G, 11)), (F.zero(), F.one(), F.zero())]
         pts += [rand_point(d) for _ in range(4 if quick else 40)]          # mostly outside the subgroup
+        # coordinates in boundary bands of the 381-bit range (top byte 0x1a just below p, just below p, tiny,
+        # around 2^380, top byte 0x19): byte-level shortcuts of a decoder go wrong there first
+        top = 0x1a << 376
+        bands = [(top, p), (p - 2 ** 16, p), (0, 2 ** 16), (2 ** 380, 2 ** 380 + 2 ** 16), (0x19 << 376, top),
+                 (top - 2 ** 16, top + 2 ** 16)]
+        for lo, hi in bands:
+            for comp in range(d):
+                for _ in range(1 if quick else 6):
+                    pts.append(rand_point(d, band=(comp, lo, hi)))
         if d == 1:
             pts += [(F(0), F(2), F(1)), (F(0), F(p - 2), F(1)), (F(0), F(2) * F(9), F(9))]     # the order-3 points (0, +-2)
-        if d == 2:      # y with zero imaginary / zero real part: x in Fp gives y in Fp or i Fp
-            for _ in range(200):
-                x0 = rng.randrange(p)
-                y = sqrt(rhs((x0, 0), 2), 2)
-                if y is not None and (y[0] == 0 or y[1] == 0):
-                    pts.append((F([x0, 0]), F(list(y)), F.one()))
-                    pts.append((F([x0, 0]), -F(list(y)), F.one()))
-                    if len(pts) > (14 if quick else 60):
-                        break
+        if d == 2:      # y with zero imaginary / zero real part (the other branch of the sign rule)
+            from .grouptrace import real_y_twist_points
+            for x, y in real_y_twist_points(p, rng, 4 if quick else 24):
+                pts.append((F(list(x)), F(list(y)), F.one()))
+                pts.append((F(list(x)), -F(list(y)), F.one()))
         for P in pts:
             enc_dec(P, d)
         # words: flag combinations x boundary values
